@@ -14,7 +14,7 @@ PID = "C03"
 RULE = (
     "cases = (decode) arbitrary byte strings and, mainly, SD payloads/messages from the independent (also non-canonical) "
     "encoder subjected to a mutation script (bit flips, byte sets, truncation, insertion, duplication, targeted rewrites "
-    "of every length/count/index/type field, non-ASCII bytes inside configuration strings), handed to every decoder "
+    "of every length/count/index/type field, the options array cut at an exact option boundary, non-ASCII bytes inside configuration strings, strings that start with '='), handed to every decoder "
     "(SOME/IP message, SD message, SD entry, SD option, every registered parse_option); (live) the same byte strings "
     "delivered as datagrams, unicast and multicast, at generated positions into a running discovery endpoint with "
     "watched/found services, an announced instance with subscriptions and a pending auto-subscription, and into a "
@@ -81,6 +81,10 @@ def strategy(tier):
 
 def fixed_cases(tier):
     out = []
+    # configuration strings of every length 1..255 through every decoder
+    for d in S.cfg_length_sweep():
+        out.append({"kind": "decode", "bytes": {"kind": "sd", "hdr": None, "mut": [], "sd": {"flags": 0xC0, "options": [{"desc": d}],
+                    "entries": [dict(type=1, service=1, instance=1, major=1, ttl=3, minor=0, idx1=0, n1=1, idx2=0, n2=0)]}}})
     # the design-time finding D8: a non-ASCII byte inside a configuration string
     cfgopt = {"desc": {"k": "cfg", "items": [["abc", "d"]]}}
     sdd = {"flags": 0xC0, "options": [cfgopt], "entries": [dict(type=1, service=0x1000, instance=1, major=1, ttl=3, minor=0, idx1=0, n1=1, idx2=0, n2=0)]}
@@ -178,9 +182,25 @@ def _suffix(data, rest, what):
             lambda: f"{what}: rest {rest[:32].hex()} is not a suffix of the input {bytes(data)[:64].hex()}")
 
 
+def _outcome(buf):
+    try:
+        v, rest = hdr.SOMEIPSDHeader.parse(buf)
+    except Exception as e:  # noqa: BLE001 - which exceptions are permitted is checked by _total
+        return type(e).__name__
+    return ("accepted", repr(v), len(rest))
+
+
 def run_decode(spec):
     data, payload, fields = junk_datagram(spec)
     labels = []
+    if spec["kind"] == "sd" and spec.get("mut"):
+        # the outcome is a function of the byte string: the same bytes decode alike before and after the message they
+        # were derived from (a corrupted retransmission follows its original) has been decoded
+        first = _outcome(payload)
+        _outcome(S.raw_sd_bytes(spec["sd"])[0])
+        again = _outcome(payload)
+        require(first == again, "C03.decoder-not-a-function",
+                lambda: f"the same SD payload decoded differently before and after its unmutated original was decoded: {str(first)[:200]} / {str(again)[:200]}; payload {bytes(payload)[:80].hex()} (len {len(payload)})")
     out, r = _total(lambda: hdr.SOMEIPHeader.parse(data), data, "SOMEIPHeader.parse", False)
     if r is not None:
         require(isinstance(r[0], hdr.SOMEIPHeader), "C03.decoder-type", "SOMEIPHeader.parse")
